@@ -379,8 +379,11 @@ def finish(mod, tier, seed, merged: Merged, wall: float, n_roots: int) -> int:
                 print(f"NOTE property={pid} clause={v['clause']}: the recorded case passes on its own but fails again when its whole shard is re-run: "
                       f"the result depends on earlier calls in the same process (replay re-runs the shard)", file=sys.stderr)
             else:
-                print(f"HARNESS-NONDETERMINISM property={pid} clause={v['clause']} replays={repro}", file=sys.stderr)
-                rc = max(rc, 2)
+                # not reproducible even with its shard: the outcome depended on what other shards ran earlier in that worker process
+                # (library state leaking across calls) or on the harness. It is still reported as a violation (exit 1).
+                v["not_reproduced"] = True
+                print(f"NOTE property={pid} clause={v['clause']}: NOT REPRODUCED on replay (alone: {repro[0][0]}/{repro[1][0]}, with its shard: no) -- "
+                      f"the outcome depends on process history", file=sys.stderr)
         path = write_replay(pid, v)
         replay_paths.append(path)
         print(f"VIOLATION property={pid} replay={path} clause={v['clause']} site={json.dumps(v['site'], sort_keys=True)} count={v['count']}")
